@@ -52,6 +52,7 @@ const replyTimeout = 20 * time.Second
 type migInfo struct {
 	redirectedWhileHalf int
 	failovers           int
+	joined              int
 	bounces             int
 }
 
@@ -205,9 +206,20 @@ func checkMig(c migCase) (inf migInfo, v *verdict) {
 			if m1, a1 := w.Redirects(); (m1 != m0 || a1 != a0) && halfMigrated() {
 				inf.redirectedWhileHalf++
 			}
+		case "joinmaster":
+			// a new master joins the cluster: it owns no slot yet and is not among the service's hosts; the migrations
+			// that follow may fill it (the usual way a cluster grows)
+			if len(w.Masters()) < 6 {
+				w.AddNode(-1)
+				inf.joined++
+			}
 		case "begin":
 			ms := w.Masters()
-			w.BeginMigration(ref.Slot([]byte(tags[o.Tag%len(tags)])), ms[o.To%len(ms)])
+			to := ms[len(ms)-1] // To < 0: the newest master
+			if o.To >= 0 {
+				to = ms[o.To%len(ms)]
+			}
+			w.BeginMigration(ref.Slot([]byte(tags[o.Tag%len(tags)])), to)
 		case "move":
 			w.MoveKeys(ref.Slot([]byte(tags[o.Tag%len(tags)])), o.N)
 		case "finalise":
@@ -391,7 +403,13 @@ func genMig(t *rapid.T) migCase {
 			}
 			c.Ops = append(c.Ops, o)
 		case x <= 13:
-			c.Ops = append(c.Ops, mop{Op: "begin", Tag: rapid.IntRange(0, 2).Draw(t, "mtag"), To: rapid.IntRange(0, 3).Draw(t, "to")})
+			if rapid.IntRange(0, 3).Draw(t, "join") == 0 {
+				// grow the cluster first and migrate to the newcomer (the last master)
+				c.Ops = append(c.Ops, mop{Op: "joinmaster"})
+				c.Ops = append(c.Ops, mop{Op: "begin", Tag: rapid.IntRange(0, 2).Draw(t, "mtag"), To: -1})
+			} else {
+				c.Ops = append(c.Ops, mop{Op: "begin", Tag: rapid.IntRange(0, 2).Draw(t, "mtag"), To: rapid.IntRange(0, 3).Draw(t, "to")})
+			}
 		case x <= 15:
 			c.Ops = append(c.Ops, mop{Op: "move", Tag: rapid.IntRange(0, 2).Draw(t, "mtag"), N: rapid.IntRange(1, 3).Draw(t, "mn")})
 		case x <= 17:
@@ -455,6 +473,9 @@ func TestMigration(t *testing.T) {
 		}
 		if inf.bounces > 0 {
 			vh.Rec().Class("migration", "connections_lost_then_traffic")
+		}
+		if inf.joined > 0 {
+			vh.Rec().Class("migration", "migration_to_a_master_that_just_joined_(no_slots,_not_a_configured_host)")
 		}
 		if inf.failovers > 0 {
 			vh.Rec().Class("migration", "failover")
